@@ -6,6 +6,10 @@ TRUST = "trusted: Coq 8.16.1 kernel, tools/gen_tables.py, extraction (ExtrOcamlB
 CHECKS = {
  "C01": ("proof", "Coq theorems on the loader model (framing: termination, conservation of bytes, accepted => validated, message = announced prefix); the validator = specification-decoder half is decided by correspondence: implementation, extracted model and the extracted Coq specification decoder run on every generated case (structured valid messages, every single-byte corruption at every offset, hand-aimed boundary cases) incl. accessor dumps; partial: soundness/completeness against the spec decoder is not yet a theorem",
          "Coq proof (framing) + differential correspondence with an extracted specification decoder as oracle"),
+ "C02": ("proof", "model of construction = abstract message (Wire.HeaderEdit.build) + the specification encoder; Coq theorems on the abstract level (body/signature field, byte-order conversion changes no value and is involutive, copy = equal message with serial 0); the encoder/decoder round trip is kept as C02_full_statement and decided per generated program: implementation bytes = extracted spec encoder bytes, spec decoder accepts them with identical re-encoding, reparse dump identical, re-marshal byte-identical, other-byte-order encoding read back through the iterator; partial: round trip not yet a theorem",
+         "Coq proof (abstract laws) + byte-exact differential against the extracted specification encoder/decoder"),
+ "C12": ("proof", "Coq theorems on the abstract header editor (read-back, deletion, all other fields keep value/presence/relative order, strip removes exactly the unknown fields, flags/serial/type/signature/body untouched for every edit sequence); the byte-level C code is tied to the model by comparing the serialised bytes after every edit on generated messages in both byte orders with shuffled and unknown fields; partial: well-formedness of the re-serialisation is C12_full_statement, decided by the spec decoder at run time",
+         "Coq proof (editor laws) + byte-exact differential after every edit"),
  "C11": ("proof", "Coq theorem: for every stream and every partition the produced messages and the corruption verdict equal those of the unsplit stream, proved from locality of load_message (hypothesis load_local, tied to the code by running every case chunked and unsplit); also: framing reads only the fixed header, nothing after corruption, conservation of bytes",
          "Coq proof (induction over chunks with a stability lemma) + chunked/unsplit differential"),
  "C16": ("proof", "Coq theorems: the scanner models (character tables regenerated from the C macros) decide exactly the specification grammars for every byte string (interface, error name, member, path, well-known bus names; exact characterisation + refutation for unique names); signatures and UTF-8 by exhaustive small-alphabet correspondence against executable specifications; implementation tied to the model by ~1M enumerated cases",
